@@ -113,7 +113,10 @@ func (w Workload) Options(dir string) *NoKV.Options {
 		MemTableSize: 2 << 10, L0Tables: 2, SyncWrites: w.Sync, DetectConflicts: w.Mode == "txn"}
 	if w.Variant == "gc" {
 		cfg.L0Tables = 1000
-		cfg.Buckets = 2
+		// hot/cold value-log routing: keys overwritten three times move to the
+		// hot bucket, so GC meets keys whose newer version lives in another bucket
+		cfg.Buckets = 3
+		cfg.HotRing = true
 	}
 	o := cfg.Options(dir)
 	o.NumCompactors = 1
